@@ -211,7 +211,7 @@ pub fn check(case: &Case, idx: u64, acc: &mut Acc) {
         Case::LongCurve { rule, n, vset, grid } => {
             let rule = *rule as usize;
             let xs = grid_times(*n, *grid, 7);
-            let ys: Vec<f64> = (0..*n).map(|k| VSETS[*vset as usize][k % 6] * (1.0 - 0.002 * k as f64)).collect();
+            let ys: Vec<f64> = if *vset == 9 { (0..*n).map(|k| VEXTREME[k % 6]).collect() } else { (0..*n).map(|k| VSETS[*vset as usize][k % 6] * (1.0 - 0.002 * k as f64)).collect() };
             let qs = queries(&xs);
             let ident: Vec<usize> = (0..*n).collect();
             let rev: Vec<usize> = (0..*n).rev().collect();
@@ -230,7 +230,9 @@ pub fn check(case: &Case, idx: u64, acc: &mut Acc) {
                         acc.eval();
                         let i = interval_of(&xs, *q);
                         let want = closed_form::<f64>(rule, xs[0], xs[i], &ys[i], xs[i + 1], &ys[i + 1], *q);
-                        if got[k].1 != i || !close_scaled(got[k].0, want, 1e-12, want.abs()) {
+                        // (a reference value that over- or underflowed to inf / 0 says nothing about the last digits)
+                        let judged = want.is_finite() && (want == 0.0 || want.abs() > 1e-290);
+                        if got[k].1 != i || (judged && !close_scaled(got[k].0, want, 1e-10, want.abs())) || (!judged && got[k].0.is_nan() && !want.is_nan()) {
                             acc.violate(&format!("many-nodes/{}", RULES[rule]), idx, cj(), json!({"supply_order": oi, "query_ts": q, "want_interval": i, "want": want}), json!({"interval": got[k].1, "value": got[k].0}));
                             break;
                         }
@@ -308,6 +310,14 @@ pub fn cases(tier: Tier) -> Vec<Case> {
     for len in 2..=tier.pick(48usize, 130usize) {
         out.push(Case::IndexLeftLong { len });
     }
+    // awkward magnitudes: values near the largest double, subnormal, neighbours 600 orders of magnitude apart
+    for n in [2usize, 3, 6, 7, 12] {
+        for rule in 0..5u8 {
+            for grid in [0u8, 1, 5] {
+                out.push(Case::LongCurve { rule, n, vset: 9, grid });
+            }
+        }
+    }
     for n in [7usize, 8, 9, 15, 16, 17, 24, 31, 32, 33, 64, 101, 130] {
         for rule in 0..5u8 {
             for vset in [0u8, 2] {
@@ -353,7 +363,7 @@ pub fn run(ctx: &Ctx, replay_file: Option<String>) -> ! {
          the two node values for linear / log-linear; identical (<= 4 ulp, same interval) for every supply \
          permutation. index_left directly: every non-decreasing list of length 2..9 (11) over {1..5} x every query in \
          {0.5, 1, ..., 5.5}, f64 and i64. Larger sizes on a menu: index_left on [1..len] for every len up to 48 (130) with every \
-         element / mid point as query; curves of 7, 8, 9, 15, 16, 17, 24, 31, 32, 33, 64, 101, 130 nodes in three supply orders on six node grids (uneven, evenly spaced, evenly spaced with displaced interior nodes, dense-then-sparse, sparse-then-dense, uneven starting before 1970). \
+         element / mid point as query; curves of 7, 8, 9, 15, 16, 17, 24, 31, 32, 33, 64, 101, 130 nodes in three supply orders on six node grids (uneven, evenly spaced, evenly spaced with displaced interior nodes, dense-then-sparse, sparse-then-dense, uneven starting before 1970); curves of 2 .. 12 nodes whose values are 1e300, 1e-300, 1e150, 1e-150, 1, 5e-324 in turn (value judged to 1e-10 where the closed form itself stays in range, interval always). \
          History independence: look-ups on curve A, then on a curve B with the same node count, first and \
          last date but permuted gaps, then A and B again, on one thread. Non-trivial: queries strictly between nodes; \
          lists of length >= 5; interleaved pairs.",
